@@ -181,8 +181,8 @@ pub fn spec() -> CheckSpec {
         level: "exploration",
         rule: "commit/rollback-heavy seeded runs on 1-2 groups, retention 0..6, snapshot TTL 5..120 s with clock jumps of 10..90 s, restarts on SQLite; after every step list_group_snapshots of every client and group is compared with a snapshot-queue model (names of the most recent <= retention commits applied through the processing path, nothing at or above a rolled-back epoch, TTL pruning at start-up); non-trivial = retention exceeded at least once, a rollback, and on SQLite a restart with snapshots present; distinct = delivery signature",
         variants: vec![
-            Variant { name: "mem", profile: Profile { backend: BackendMix::Memory, ..base.clone() }, runs_quick: 300, runs_thorough: 15000, oracle: mk, guarded: false, configure_gen: Some(commit_heavy), post: None },
-            Variant { name: "sqlite", profile: Profile { backend: BackendMix::Sqlite, allow_restart: true, ..base.clone() }, runs_quick: 120, runs_thorough: 6000, oracle: mk, guarded: false, configure_gen: Some(commit_heavy), post: None },
+            Variant { name: "mem", profile: Profile { backend: BackendMix::Memory, ..base.clone() }, runs_quick: 300, runs_thorough: 15000, oracle: mk, guarded: false, configure_gen: Some(commit_heavy), post: None, custom: None },
+            Variant { name: "sqlite", profile: Profile { backend: BackendMix::Sqlite, allow_restart: true, ..base.clone() }, runs_quick: 120, runs_thorough: 6000, oracle: mk, guarded: false, configure_gen: Some(commit_heavy), post: None, custom: None },
         ],
         assumptions: vec!["honest members", "snapshot age is measured on the node's own (simulated) clock"],
         real: super::REAL.to_vec(),
